@@ -21,6 +21,7 @@ type Spec struct {
 	MultiError bool      `json:"multi_error,omitempty"`
 	Auth       string    `json:"auth,omitempty"` // ok | fail | read_ok | read_fail
 	Marker     string    `json:"marker"`
+	MapSeed    uint64    `json:"map_seed,omitempty"` // 0 = sorted map iteration inside the library; else seeded permutation (the neutral oracle always runs sorted)
 	Reqs       []Req     `json:"reqs"`
 }
 
@@ -456,6 +457,9 @@ func Gen(seed uint64, tier string) *Spec {
 		s.Encoder = simfw.Pick(r, []string{"default", "validation", "record"})
 	}
 	s.Auth = simfw.Pick(r, []string{"ok", "ok", "read_ok", "read_ok", "fail", "read_fail"})
+	if r.Chance(1, 3) {
+		s.MapSeed = r.Uint64() | 1
+	}
 	n := r.Range(1, 4)
 	for i := 0; i < n; i++ {
 		last := i == n-1
